@@ -214,13 +214,15 @@ func (s *Stream) WriteRtpPacket(packet *rtp.Packet) error {
 
 	atomic.AddUint64(&s.size, uint64(packet.Size()))
 
-	s.joinLock.Lock()
-	vhook.At("pub.begin", s)
-	keyframe := s.cache.CachePack(packet)
-	vhook.At("pub.cached", s)
-	s.consumptions.SendToAll(packet, keyframe)
-	vhook.At("pub.sent", s)
-	s.joinLock.Unlock()
+	func() {
+		s.joinLock.Lock()
+		defer s.joinLock.Unlock() // 即使缓存/广播 panic 也要释放，否则后续的写入和加入都会永久阻塞
+		vhook.At("pub.begin", s)
+		keyframe := s.cache.CachePack(packet)
+		vhook.At("pub.cached", s)
+		s.consumptions.SendToAll(packet, keyframe)
+		vhook.At("pub.sent", s)
+	}()
 
 	s.rtpDemuxer.WriteRtpPacket(packet)
 	return nil
@@ -246,13 +248,15 @@ func (s *Stream) WriteFlvTag(tag *flv.Tag) error {
 		return statusErrors[status]
 	}
 
-	s.joinLock.Lock()
-	vhook.At("flv.begin", s)
-	keyframe := s.flvCache.CachePack(tag)
-	vhook.At("flv.cached", s)
-	s.flvConsumptions.SendToAll(tag, keyframe)
-	vhook.At("flv.sent", s)
-	s.joinLock.Unlock()
+	func() {
+		s.joinLock.Lock()
+		defer s.joinLock.Unlock()
+		vhook.At("flv.begin", s)
+		keyframe := s.flvCache.CachePack(tag)
+		vhook.At("flv.cached", s)
+		s.flvConsumptions.SendToAll(tag, keyframe)
+		vhook.At("flv.sent", s)
+	}()
 	return nil
 }
 
